@@ -30,8 +30,8 @@ use tonic_health::server::{health_reporter, HealthReporter};
 use tonic_health::ServingStatus;
 use tower::util::BoxCloneService;
 
-/// "" (the server as a whole), an ordinary name, and a free-form one (health service names are arbitrary strings)
-pub const NAMES: [&str; 3] = ["", "a", "1st/pay-ments..v2 \u{e9}"];
+/// "" (the server as a whole), a well-formed name (the health service's own: nothing is registered for it unless set), and a free-form one (health service names are arbitrary strings)
+pub const NAMES: [&str; 3] = ["", "grpc.health.v1.Health", "1st/pay-ments..v2 \u{e9}"];
 pub const MAX_OPS: usize = 30;
 pub const MAX_WATCHERS: usize = 4;
 pub const STRESS_REPS: u64 = 12;
